@@ -116,6 +116,10 @@ func runC19CLI(base *sbx.Box, c *c19cliCase) error {
 	if objID != "" {
 		cmds = append([][]string{{"cat-file", "-p", objID}, {"cat-file", "-t", objID}}, cmds...)
 	}
+	// the commands that change something read the same files first
+	b.WriteFile("a.txt", []byte("edited after the damage\n"))
+	cmds = append(cmds, [][]string{{"add", "a.txt"}, {"commit", "-m", "after damage"}, {"restore", "--staged", "dir"}, {"reset", "--soft", "HEAD@{0}"}, {"reset", "--hard", "HEAD@{1}"},
+		{"branch", "nb"}, {"switch", "main"}, {"restore", "a.txt"}, {"status"}}...)
 	for _, cmd := range cmds {
 		r := b.Run(cmd...)
 		if r.Timeout {
@@ -130,6 +134,15 @@ func runC19CLI(base *sbx.Box, c *c19cliCase) error {
 				if r.Stdout != string(o.Data)+"\n" {
 					return fmt.Errorf("cat-file -p %s succeeds on a damaged object file (%s at %d) and prints other content than the object with that id: %q", objID, c.Kind, c.Pos, clipS(r.Stdout))
 				}
+			}
+		}
+	}
+	if strings.HasPrefix(c.File, "logs/") {
+		// a damaged journal must not make a command install an id that is not a stored commit
+		o := Observe(b)
+		for name, id := range o.Branches {
+			if _, err := gitfmt.ReadCommit(o.Store, id); err != nil {
+				return fmt.Errorf("after the commands on a repository whose %s was damaged (%s at %d), branch %q holds %q, which is not a stored commit: %v", c.File, c.Kind, c.Pos, name, id, err)
 			}
 		}
 	}
